@@ -112,7 +112,7 @@ fn sender_view_update(v: &mut SView, events: &[Event]) {
         match e {
             Event::Send { bytes, .. } => {
                 if let Some(rc::RPacket::Data { block, .. }) = decode(bytes) {
-                    let k = abs_block(block, v.hi);
+                    let k = abs_after(block, v.acked);
                     v.any_data = true;
                     if k > v.hi {
                         v.hi = k;
@@ -122,7 +122,7 @@ fn sender_view_update(v: &mut SView, events: &[Event]) {
             Event::Recv { answer: Answer::Deliver { bytes, .. }, .. } => {
                 if let Some(rc::RPacket::Ack(k)) = decode(bytes) {
                     if v.any_data {
-                        let ka = abs_block(k, v.acked);
+                        let ka = abs_ack(k, v.acked, v.hi);
                         if ka > v.acked && ka <= v.hi {
                             v.acked = ka;
                         }
